@@ -33,11 +33,14 @@ pub struct Scenario {
     pub payload: usize,
     /// the first data chunk of every request is larger than one frame
     pub big: bool,
+    /// the session runs its own keep-alive task (as every session made by `Client` does); its first request
+    /// goes out when the task starts, i.e. it races with the session start and the first requests
+    pub keepalive: bool,
 }
 
 impl Scenario {
     fn describe(&self) -> Value {
-        json!({"requests": self.requests, "data_frames": self.data_frames, "api": self.api, "start_yields": self.start_yields, "heartbeats": self.heartbeats, "padded": self.padded, "pipe": self.pipe, "payload": self.payload, "big": self.big})
+        json!({"requests": self.requests, "data_frames": self.data_frames, "api": self.api, "start_yields": self.start_yields, "heartbeats": self.heartbeats, "padded": self.padded, "pipe": self.pipe, "payload": self.payload, "big": self.big, "keepalive": self.keepalive})
     }
     fn key(&self) -> String {
         format!("{:?}", self)
@@ -81,7 +84,7 @@ fn pipe_cfg(kind: u8, seed: u64) -> PipeCfg {
 async fn run_async(sc: Scenario, seed: u64, quiesce: Duration) -> (Vec<(String, String)>, usize, String) {
     let mut problems = Vec::new();
     let padding = if sc.padded { engine::default_padding() } else { engine::no_padding() };
-    let mut pair = engine::make_pair(PairCfg { c2s: pipe_cfg(sc.pipe, seed), s2c: PipeCfg::plain(), client_padding: padding.clone(), server_padding: padding, heartbeat: None }).await;
+    let mut pair = engine::make_pair(PairCfg { c2s: pipe_cfg(sc.pipe, seed), s2c: PipeCfg::plain(), client_padding: padding.clone(), server_padding: padding, heartbeat: if sc.keepalive { Some(anytls_rs::session::SessionHeartbeatConfig { interval: Duration::from_secs(30), timeout: Duration::from_secs(60) }) } else { None } }).await;
     let logs: Arc<Mutex<BTreeMap<u8, Vec<Sub>>>> = Arc::new(Mutex::new(BTreeMap::new()));
     let mut handles = Vec::new();
     for j in 0..sc.requests {
@@ -265,10 +268,10 @@ fn record(rep: &mut Report, sc: &Scenario, out: &Outcome, seed: u64) {
 fn scenarios(rng: &mut Rng, n: usize) -> Vec<Scenario> {
     let mut v = vec![
         // the canonical one: two requests racing on a fresh session
-        Scenario { requests: 2, data_frames: 1, api: 0, start_yields: vec![0, 0], heartbeats: 0, padded: false, pipe: 0, payload: 12, big: false },
-        Scenario { requests: 2, data_frames: 2, api: 2, start_yields: vec![0, 1], heartbeats: 1, padded: true, pipe: 0, payload: 20, big: false },
-        Scenario { requests: 3, data_frames: 1, api: 1, start_yields: vec![0, 2, 1], heartbeats: 0, padded: true, pipe: 1, payload: 40, big: false },
-        Scenario { requests: 2, data_frames: 3, api: 1, start_yields: vec![0, 1], heartbeats: 0, padded: false, pipe: 0, payload: 30, big: true },
+        Scenario { requests: 2, data_frames: 1, api: 0, start_yields: vec![0, 0], heartbeats: 0, padded: false, pipe: 0, payload: 12, big: false, keepalive: false },
+        Scenario { requests: 2, data_frames: 2, api: 2, start_yields: vec![0, 1], heartbeats: 1, padded: true, pipe: 0, payload: 20, big: false, keepalive: true },
+        Scenario { requests: 3, data_frames: 1, api: 1, start_yields: vec![0, 2, 1], heartbeats: 0, padded: true, pipe: 1, payload: 40, big: false, keepalive: false },
+        Scenario { requests: 2, data_frames: 3, api: 1, start_yields: vec![0, 1], heartbeats: 0, padded: false, pipe: 0, payload: 30, big: true, keepalive: true },
     ];
     while v.len() < n {
         let requests = rng.usize(1, 5);
@@ -282,6 +285,7 @@ fn scenarios(rng: &mut Rng, n: usize) -> Vec<Scenario> {
             pipe: rng.below(3) as u8,
             payload: *rng.pick(&[3usize, 12, 100, 900, 5000]),
             big: rng.chance(0.15),
+            keepalive: rng.chance(0.4),
         });
     }
     v
